@@ -525,6 +525,33 @@ def w7_ba(run: Run, prog: Program):
                and isinstance(s.targets[0], ast.Subscript)
                and isinstance(s.targets[0].value, ast.Name)]
     arrs = {c.left.value.id for c in alltests} & {s.targets[0].value.id for s in allsets}
+    if not arrs:
+        # no array that is both tested and updated: the duplicates may be
+        # rejected in another way (a rejection loop testing membership in the
+        # slots filled so far, a set, np.unique ...): not decided.  No rejection
+        # loop and no de-duplication at all is the missing guard: the pool holds
+        # every node once per link end, so distinct *positions* (replace=False)
+        # are not distinct nodes
+        src = ast.unparse(m.node)
+        rejects = any(isinstance(w_, ast.While) for w_ in ast.walk(m.node))
+        dedup = any(
+            (isinstance(n_, ast.Compare) and any(isinstance(o_, (ast.In, ast.NotIn))
+                                                 for o_ in n_.ops)) or
+            (isinstance(n_, ast.Call) and ast.unparse(n_.func) in (
+                "np.unique", "set", "frozenset", "np.isin", "np.in1d", "np.setdiff1d"))
+            for n_ in ast.walk(m.node))
+        if rejects or dedup:
+            run.unknowns.append("W7: Network.BarabasiAlbert keeps no tested-and-updated "
+                                "bookkeeping array; the duplicate guard is not decided")
+            run.oblige("W7", "BarabasiAlbert:guard", True, nontrivial=False)
+            return
+        run.oblige("W7", "BarabasiAlbert:guard", False)
+        run.add("W7", "Network.BarabasiAlbert/duplicate-guard", m.where,
+                "BarabasiAlbert draws the targets of a new node without any rejection "
+                "loop or de-duplication: the target pool lists a node once per link "
+                "end, so the same node can be drawn twice and fewer links than "
+                "documented are created")
+        return
     tests = [c for c in alltests if c.left.value.id in arrs]
     sets = [s for s in allsets if s.targets[0].value.id in arrs]
     ok = len(tests) == 1 and len(sets) == 1 and \
